@@ -3,6 +3,7 @@
 package absnfs
 
 import (
+	"io"
 	"fmt"
 	"runtime"
 	"strings"
@@ -122,6 +123,9 @@ func TestVerif_C16(t *testing.T) {
 }
 
 func vfC16Controlled(rec *evid.Rec, s int) {
+	if s == 0 {
+		vfC16MoreParkPoints(rec)
+	}
 	rng := evid.Rng(16, int64(s))
 	parkAt := []string{"Lstat", "File.WriteAt", "Stat", "Chtimes"}[rng.Intn(4)]
 	shortTimeout := rng.Intn(3) == 0
@@ -895,4 +899,159 @@ func vfC16EnableByRoundTrip(rec *evid.Rec, via string) {
 		rec.Violate("C16/rate-limiting-enabled-at-runtime-without-explicit-config-not-in-force/via="+via, fmt.Sprintf("rate limiting was switched on by %s (EnableRateLimiting set on what GetExportOptions/the policy reports; the update returned nil and limiting is reported as enabled): %d of %d MNT calls from one address were served in %v, the default mount budget is 2 + 10 per minute", via, served, calls, el), nil)
 	}
 	rec.Distinct(fmt.Sprintf("enable-by-round-trip|%s|served<=allowed=%v", via, served <= allowed))
+}
+
+// vfGateReader parks its first Read until the gate is opened.
+type vfGateReader struct {
+	r      io.Reader
+	once   sync.Once
+	parked chan struct{}
+	open   chan struct{}
+}
+
+func (g *vfGateReader) Read(p []byte) (int, error) {
+	g.once.Do(func() { close(g.parked); <-g.open })
+	return g.r.Read(p)
+}
+
+// vfC16MoreParkPoints: two more places at which a request can be when an update starts.
+// (1) A MOUNT MNT call parked in the backend lstat of the path: it was admitted under the old
+// policy, so the update must not return before it has finished (and must finish once it has).
+// (2) A request whose arguments are still arriving (parked in the first read of its argument
+// bytes, after it was admitted): the update starts and waits; when the arguments arrive both must
+// complete - a request that takes the policy lock a second time would wait for the writer that
+// waits for it.
+func vfC16MoreParkPoints(rec *evid.Rec) {
+	type pcase struct {
+		name string
+		call func(c *vfClient, root, dh, fh uint64) error
+		atFS bool // parked in the backend (else: while decoding arguments)
+	}
+	cases := []pcase{
+		{"MNT", func(c *vfClient, root, dh, fh uint64) error { _, e := c.mnt("/d"); return e }, true},
+		{"MNT", func(c *vfClient, root, dh, fh uint64) error { _, e := c.mnt("/d"); return e }, false},
+		{"GETATTR", func(c *vfClient, root, dh, fh uint64) error { _, e := c.getattr(fh); return e }, false},
+		{"LOOKUP", func(c *vfClient, root, dh, fh uint64) error { _, e := c.lookup(dh, "f"); return e }, false},
+		{"READ", func(c *vfClient, root, dh, fh uint64) error { _, e := c.read(fh, 0, 16); return e }, false},
+		{"WRITE", func(c *vfClient, root, dh, fh uint64) error { _, e := c.write(fh, 0, 2, []byte("x")); return e }, false},
+		{"READDIR", func(c *vfClient, root, dh, fh uint64) error { _, e := c.readdir(dh, 0, 4096); return e }, false},
+		{"READDIRPLUS", func(c *vfClient, root, dh, fh uint64) error { _, e := c.readdirplus(dh, 0, 4096, 8192); return e }, false},
+		{"ACCESS", func(c *vfClient, root, dh, fh uint64) error { _, e := c.access(fh, 0x3f); return e }, false},
+		{"REMOVE", func(c *vfClient, root, dh, fh uint64) error { _, e := c.remove(dh, "zz"); return e }, false},
+		{"RENAME", func(c *vfClient, root, dh, fh uint64) error { _, e := c.rename(dh, "zz", dh, "yy"); return e }, false},
+		{"FSINFO", func(c *vfClient, root, dh, fh uint64) error { _, e := c.fsinfo(root); return e }, false},
+	}
+	for _, rl := range []bool{false, true} {
+		for _, pc := range cases {
+			where := "while-its-arguments-arrive"
+			if pc.atFS {
+				where = "in-the-backend"
+			}
+			desc := fmt.Sprintf("%s parked %s, rate limiting %v", pc.name, where, rl)
+			evid.Journal(desc)
+			fs := refs.New()
+			fs.PlantDir("/d", 0777, 0, 0)
+			fs.PlantFile("/d/f", []byte("data"), 0666, 0, 0)
+			srv, err := vfNewSrv(fs, ExportOptions{AttrCacheTimeout: 1, EnableRateLimiting: rl})
+			if err != nil {
+				rec.Infra(err.Error())
+				return
+			}
+			c := srv.client()
+			root, _ := c.mnt("/")
+			dl, _ := c.lookup(root, "d")
+			fl, _ := c.lookup(vfFH(dl.FH), "f")
+			if dl == nil || fl == nil || fl.Status != 0 {
+				rec.Infra("lookups")
+				srv.Close()
+				return
+			}
+			dh, fh := vfFH(dl.FH), vfFH(fl.FH)
+			parked, open := make(chan struct{}), make(chan struct{})
+			pcli := srv.client()
+			if pc.atFS {
+				var once sync.Once
+				fs.SetHook(func(op *refs.Op, ph refs.Phase) error {
+					if ph == refs.Before && op.Name == "Lstat" && op.Path == "/d" {
+						once.Do(func() { close(parked); <-open })
+					}
+					return nil
+				})
+			} else {
+				pcli.BodyWrap = func(r io.Reader) io.Reader { return &vfGateReader{r: r, parked: parked, open: open} }
+			}
+			reqDone := make(chan error, 1)
+			go func() { reqDone <- pc.call(pcli, root, dh, fh) }()
+			select {
+			case <-parked:
+			case <-time.After(20 * time.Second):
+				// this procedure reads no arguments through the reader (or never reached the backend)
+				rec.Distinct("more-park-points|" + desc + "|never-parked")
+				close(open)
+				srv.Close()
+				continue
+			}
+			updDone := make(chan error, 1)
+			go func() {
+				p := *srv.nfs.policy.Load()
+				p.AllowedIPs = []string{"127.0.0.1", "10.9.9.9"}
+				updDone <- srv.nfs.UpdatePolicyOptions(p)
+			}()
+			// the update must wait for the admitted request: if it returns while the request is still
+			// parked, that is the violation, whenever it happens
+			early := false
+			select {
+			case <-updDone:
+				early = true
+			case <-time.After(300 * time.Millisecond):
+			}
+			rec.Eval(1)
+			if early {
+				rec.Violate("C16/update-returned-while-a-request-admitted-under-the-old-policy-was-still-executing/"+pc.name+"/"+where, desc+": UpdatePolicyOptions returned while the request was parked", map[string]any{"case": desc})
+			}
+			close(open)
+			fs.SetHook(nil)
+			// now both must finish; if they do not, the verdict is structural
+			outcome := "both-finished"
+			waitBoth := func() bool {
+				deadline := time.After(25 * time.Second)
+				gotReq, gotUpd := false, early
+				for !(gotReq && gotUpd) {
+					select {
+					case <-reqDone:
+						gotReq = true
+					case <-updDone:
+						gotUpd = true
+					case <-deadline:
+						return false
+					}
+				}
+				return true
+			}
+			if !waitBoth() {
+				first := vfC16PolicyLockState(srv.nfs)
+				w1 := vfC29LockWaiters()
+				time.Sleep(2 * time.Second)
+				w2 := vfC29LockWaiters()
+				stuck := ""
+				for id, st := range w2 {
+					if _, was := w1[id]; was {
+						stuck = st
+					}
+				}
+				if stuck != "" {
+					outcome = "deadlock"
+					vfStuckSeen.Store(true)
+					rec.Violate("C16/request-and-update-wait-for-each-other/"+pc.name+"/"+where, fmt.Sprintf("%s: after the request's arguments arrived neither the request nor the update finished; policy lock: %s; %s: %s", desc, first, evid.StuckMarker, stuck), map[string]any{"case": desc})
+				} else {
+					outcome = "slow"
+					rec.Inconclusive(1)
+				}
+				rec.Distinct("more-park-points|" + desc + "|" + outcome)
+				return
+			}
+			rec.Distinct("more-park-points|" + desc + "|" + outcome)
+			srv.Close()
+		}
+	}
 }
